@@ -897,6 +897,29 @@ func (ex *Ex) trCall(env *Env, e *Expr) (SV, error) {
 		}
 		lv := ex.loadFrom(env.fr, env.st, Val{T: a.T}, p.Elem(), nil)
 		return SV{T: lv.T, Ty: SType{G: p.Elem()}}, nil
+	case "callres0", "callres1", "callres2":
+		// callresN(f, args...): the N-th result of calling the (pure) function value f
+		if len(args) < 1 || args[0].Ty.G == nil {
+			return SV{}, env.errf(e, "%s needs a function value", name)
+		}
+		sig, ok := args[0].Ty.G.Underlying().(*types.Signature)
+		if !ok {
+			return SV{}, env.errf(e, "%s on non-function", name)
+		}
+		idx := int(name[len(name)-1] - '0')
+		if idx >= sig.Results().Len() || len(args)-1 != sig.Params().Len() {
+			return SV{}, env.errf(e, "%s: arity mismatch", name)
+		}
+		ts := []*T{args[0].T}
+		for i, a := range args[1:] {
+			ca, err := ex.coerceTo(env, a, SType{G: sig.Params().At(i).Type()})
+			if err != nil {
+				return SV{}, env.errf(e, "%v", err)
+			}
+			ts = append(ts, ca.T)
+		}
+		rt := sig.Results().At(idx).Type()
+		return SV{T: App(appSym(sig, idx), w.SortOf(rt), ts...), Ty: SType{G: rt}}, nil
 	case "seqContains":
 		// seqContains(s, x): exists i in range with s[i] == x
 		if err := need(2); err != nil {
@@ -955,6 +978,20 @@ func (ex *Ex) trCall(env *Env, e *Expr) (SV, error) {
 		return v, err
 	case "emptySet":
 		return SV{}, env.errf(e, "emptySet needs a type; use setEmpty$T via spec func")
+	}
+	if name == "closure" {
+		// closure("pkg.Func$1"): the function value of a closure without free variables
+		if len(argExprs) != 1 || argExprs[0].Kind != "str" {
+			return SV{}, env.errf(e, "closure(\"pkg.Func$N\")")
+		}
+		fn, err := w.ResolveCallee(argExprs[0].Name, env.pkgName)
+		if err != nil {
+			return SV{}, env.errf(e, "%v", err)
+		}
+		if len(fn.FreeVars) > 0 {
+			return SV{}, env.errf(e, "closure %s has free variables", argExprs[0].Name)
+		}
+		return SV{T: App("fn$"+mangle(w.funcName(fn)), SFn), Ty: SType{G: fn.Signature}}, nil
 	}
 	f, ok := w.SpecFuncs[name]
 	if !ok {
